@@ -36,6 +36,9 @@ CHECKS = {
  "C17": ("PBT (proptest) with an independent sha2/sha3 tree builder, single-corruption metamorphic probes, exhaustive small trees, model-based claim histories",
          "Independent Merkle tree builder (sorted-pair with promoted odd nodes and OZ-JS heap layout; positional padded with distinct fillers) for SHA-256 and Keccak-256: every leaf's honest proof must verify, every single-element corruption of leaf/proof/index/root must be rejected; exhaustive drop/swap/index/high-bit enumeration for trees up to 17 (thorough 40) leaves; generated claim histories over two trees on harness distributors (both verification forms) and the airdrop and merkle-voting examples: claimed flips only with a valid proof against the current root, stays set forever, failed claims flip nothing, airdrop pays exactly once.",
          "DESIGN.md §4 C17"),
+ "C18": ("PBT (proptest) with independently produced genuine assertions (p256, ed25519-dalek, sha2), re-signed semantic variants, bit-flip corruptions, encoder differential (base64 crate + own RFC 4648 encoder), exhaustive length lattice",
+         "For generated payloads and key pairs a genuine WebAuthn assertion (flat client-data JSON of lengths up to and past the 1024 bound) and Ed25519 signature are produced independently and must be accepted by the library functions and both example verifier contracts; about 55 correctly re-signed variants per assertion (all 16 flag combinations, type strings, challenge encodings, authenticator-data lengths, client-data lengths around the bound, wrong signed message) are accepted exactly when the stated conditions hold, and every unsigned bit flip in payload, key, signature, authenticator data or client data is rejected; base64url output equals RFC 4648 section 5 (two reference encoders) for every length 0..=64 (thorough 300) and random inputs; extract_from_bytes equals slice semantics.",
+         "DESIGN.md §4 C18"),
 }
 
 PENDING_REASON = "check not yet implemented in this commit (work in progress; design in DESIGN.md §4) — will be claimed once its harness lands"
